@@ -64,49 +64,45 @@ Theorem C12_counts_order_irrelevant :
     dup_raw_names K eqb p1 variants = dup_raw_names K eqb p2 variants.
 Proof. exact dup_raw_names_order_irrelevant. Qed.
 
-(* token_utils.rs:27-44 impls: HashSet -> Vec: ClsImplsToVec.
-   The two Vecs are permutations of each other; the consumer `contains` (has_impl) cannot tell ... *)
-Theorem C12_macro_impls_enumerations_are_permutations :
-  forall (p1 p2 : timpl -> list timpl -> list timpl) (mods : list (bool * timpl)),
-    valid_place p1 -> valid_place p2 -> Permutation (macro_impls p1 mods) (macro_impls p2 mods).
-Proof. exact macro_impls_perm. Qed.
+(* token_utils.rs:22-47 impls (since fix 9ffca46: BTreeSet -> Vec, ascending).  The Vec stored in
+   TypeEntryNative.impls is a function of the resulting SET of impls: two macro entries whose impl
+   sets are equal (however they were written: order of `+` items, redundant `?`) get the same Vec ... *)
+Theorem C12_macro_impls_vec_determined_by_set :
+  forall mods mods' : list (bool * timpl),
+    (forall i, native_has_impl (macro_impls mods) i = native_has_impl (macro_impls mods') i) ->
+    macro_impls mods = macro_impls mods'.
+Proof. exact macro_impls_set_determines_vec. Qed.
 
-Theorem C12_macro_impls_has_impl_order_irrelevant :
-  forall (p1 p2 : timpl -> list timpl -> list timpl) (mods : list (bool * timpl)) (i : timpl),
-    valid_place p1 -> valid_place p2 ->
-    native_has_impl (macro_impls p1 mods) i = native_has_impl (macro_impls p2 mods) i.
-Proof. exact has_impl_order_irrelevant. Qed.
+(* ... hence the derived (order-sensitive) equality of TypeEntryNative used by assign_type
+   (lib.rs:955 type_to_id) de-duplicates them: ONE type id, and the enum over them gets no
+   `impl From<X>` in every process.  This is the statement that was refuted for the HashSet code
+   (fixed finding C12-F1). *)
+Theorem C12_macro_impls_dedup_deterministic :
+  forall (n : string) (mods mods' : list (bool * timpl)),
+    (forall i, native_has_impl (macro_impls mods) i = native_has_impl (macro_impls mods') i) ->
+    assign_natives [] [(n, macro_impls mods); (n, macro_impls mods')] = [0; 0] /\
+    from_impl_variants [0; 0] = [].
+Proof. intros n mods mods' E. split; [exact (macro_impls_dedup n mods mods' E)|reflexivity]. Qed.
 
-(* ... but the derived (order-sensitive) equality of TypeEntryNative, used by assign_type to
-   de-duplicate unnamed entries, can.  FULL statement (false):
-     forall p1 p2 mods es, valid_place p1 -> valid_place p2 ->
-       assign_natives [] (map (fun n => (n, macro_impls p1 mods)) ..) = .. p2 ..
-   Refuted: two `convert` entries with the same type name whose impl sets were enumerated by two
-   hashers get ONE type id or TWO, and the enum over them gets no `impl From<X>` or two
-   conflicting ones (finding C12-F1, reproduced on the real macro). *)
-Definition Known_C12_1 (e1 e2 : string * list timpl) : Prop :=
-  fst e1 = fst e2 /\ Permutation (snd e1) (snd e2) /\ 2 <= List.length (snd e1).
-
-Theorem C12_macro_impls_dedup_refuted :
+(* Regression witness (about the code BEFORE the fix, [macro_impls_hashset]): with a std HashSet the
+   two Vecs are only permutations of each other, `contains` cannot tell, but assign_type can: ids
+   [0;1] vs [0;0], i.e. two conflicting `impl From<X>` vs none.  This is why the inventory does NOT
+   whitelist a HashSet in into_name_and_impls. *)
+Theorem C12_macro_impls_hashset_regression_witness :
   exists (p1 p2 : timpl -> list timpl -> list timpl) (n : string),
     valid_place p1 /\ valid_place p2 /\
-    Known_C12_1 (n, macro_impls p1 []) (n, macro_impls p2 []) /\
-    assign_natives [] [(n, macro_impls p1 []); (n, macro_impls p2 [])] = [0; 1] /\
-    assign_natives [] [(n, macro_impls p1 []); (n, macro_impls p1 [])] = [0; 0] /\
+    Permutation (macro_impls_hashset p1 []) (macro_impls_hashset p2 []) /\
+    (forall i, native_has_impl (macro_impls_hashset p1 []) i = native_has_impl (macro_impls_hashset p2 []) i) /\
+    assign_natives [] [(n, macro_impls_hashset p1 []); (n, macro_impls_hashset p2 [])] = [0; 1] /\
+    assign_natives [] [(n, macro_impls_hashset p1 []); (n, macro_impls_hashset p1 [])] = [0; 0] /\
     from_impl_variants [0; 1] = [0; 1] /\ from_impl_variants [0; 0] = [].
 Proof.
   exists place_front, place_back, "X"%string.
   split; [exact place_front_valid|]. split; [exact place_back_valid|].
-  split; [|vm_compute; repeat split; reflexivity].
-  split; [reflexivity|]. split; [|vm_compute; apply le_n].
-  apply (macro_impls_perm place_front place_back [] place_front_valid place_back_valid).
+  split; [apply (macro_impls_hashset_perm place_front place_back [] place_front_valid place_back_valid)|].
+  split; [intros i; apply (has_impl_hashset_order_irrelevant place_front place_back [] i place_front_valid place_back_valid)|].
+  vm_compute; repeat split; reflexivity.
 Qed.
-
-(* outside the finding's class (at most one impl in the set) the de-duplication is order independent *)
-Theorem C12_macro_impls_dedup_order_irrelevant_small :
-  forall (n : string) (v v' : list timpl) (e : string * list timpl),
-    Permutation v v' -> List.length v <= 1 -> native_eqb (n, v) e = native_eqb (n, v') e.
-Proof. exact native_dedup_small. Qed.
 
 (* macro lib.rs:201-208 patch / replace: HashMap (distinct keys by construction) -> BTreeMap: ClsSettingsInsert *)
 Theorem C12_macro_patch_replace_order_irrelevant :
@@ -183,6 +179,11 @@ Proof. exact place_back_valid. Qed.
 Example C12_ex_unique :
   unique nat Nat.eqb place_front [3; 1; 2] = true /\ unique nat Nat.eqb place_back [3; 1; 3] = false.
 Proof. vm_compute. split; reflexivity. Qed.
+Example C12_ex_macro_impls :
+  macro_impls [] = [IFromStr; IDisplay] /\
+  macro_impls [(true, IDefault); (false, IFromStr)] = [IDisplay; IDefault] /\
+  macro_impls [(false, IFromStr); (true, IDefault); (true, IDisplay)] = [IDisplay; IDefault].
+Proof. vm_compute. repeat split; reflexivity. Qed.
 Example C12_ex_parse :
   parse_obj [("b", 1); ("a", 2)]%string = [("a", 2); ("b", 1)]%string /\
   parse_obj [("a", 2); ("b", 1)]%string = [("a", 2); ("b", 1)]%string /\
